@@ -223,6 +223,13 @@ class _ScaledMetricFunctionWrapper(_MetricFunctionWrapper):
         self.sp = sp
         super().__init__(func=func, name=name, greater_is_better=greater_is_better)
 
+    def __call__(self, y_true, y_pred, **kwargs):
+        """Returns calculated loss metric by passing `y_true`, `y_pred`, the
+        `sp` attribute and further series (`y_train`) given as keyword
+        arguments to underlying metric function.
+        """
+        return self._func(y_true, y_pred, sp=self.sp, **kwargs)
+
 
 class _ScaledSquaredMetricFunctionWrapper(_SquaredErrorMixin, _MetricFunctionWrapper):
     def __init__(
@@ -231,6 +238,15 @@ class _ScaledSquaredMetricFunctionWrapper(_SquaredErrorMixin, _MetricFunctionWra
         self.sp = sp
         self.square_root = square_root
         super().__init__(func=func, name=name, greater_is_better=greater_is_better)
+
+    def __call__(self, y_true, y_pred, **kwargs):
+        """Returns calculated loss metric by passing `y_true`, `y_pred`, the
+        `sp` and `square_root` attributes and further series (`y_train`) given
+        as keyword arguments to underlying metric function.
+        """
+        return self._func(
+            y_true, y_pred, sp=self.sp, square_root=self.square_root, **kwargs
+        )
 
 
 class _PercentageMetricFunctionWrapper(_PercentageErrorMixin, _MetricFunctionWrapper):
